@@ -320,6 +320,11 @@ pub fn key_alphabet() -> Vec<(&'static str, Vec<u8>)> {
         let name: &'static str = Box::leak(format!("key:{}", if k.is_empty() { "<empty>" } else { k }).into_boxed_str());
         v.push((name, rlp::enc_str(k.as_bytes())));
     }
+    // look-alikes of reserved keys (prefixes, extensions, other case): ordinary custom keys
+    for k in ["i", "ip4", "ip66", "tcp4", "tcp66", "udp4", "udp66", "ID", "idx", "secp256k", "secp256k11", "ed2551", "ed255199", "client2", "Tcp", "ip\u{0}"] {
+        let name: &'static str = Box::leak(format!("key:{}", k.escape_default()).into_boxed_str());
+        v.push((name, rlp::enc_str(k.as_bytes())));
+    }
     v.push(("key:list", vec![0xc1, 0x61]));
     v.push(("key:noncanon", vec![0x81, 0x61]));
     v.push(("key:longform", vec![0xb8, 0x01, 0x61]));
@@ -466,6 +471,23 @@ pub fn structural_mutants(s: &Shape, tier: Tier) -> Vec<(Shape, Outer, String)> 
                 it.insert(1 + 2 * pos, k.clone());
                 it.insert(2 + 2 * pos, r.clone());
                 out.push((with(it), Outer::Canonical, format!("insert-pair@{}:{kl}={rl}", if pos == 0 { "front".to_string() } else if pos == n_pairs { "back".to_string() } else { pos.to_string() })));
+            }
+        }
+    }
+    // insert a pair at its sorted position (the result is well-formed whenever the value suits the key)
+    {
+        let cur_keys: Vec<Vec<u8>> = (0..n_pairs).map(|i| rlp::as_str(&s.items[1 + 2 * i]).map(|k| k.to_vec()).unwrap_or_default()).collect();
+        for (kl, k) in keys.iter().map(|x| (x.0, &x.1)) {
+            let Some(kb) = rlp::as_str(k) else { continue };
+            if cur_keys.iter().any(|c| c.as_slice() == kb) {
+                continue;
+            }
+            let pos = cur_keys.iter().filter(|c| c.as_slice() < kb).count();
+            for (rl, r) in &raws {
+                let mut it = s.items.clone();
+                it.insert(1 + 2 * pos, k.clone());
+                it.insert(2 + 2 * pos, r.clone());
+                out.push((with(it), Outer::Canonical, format!("insert-sorted:{kl}={rl}")));
             }
         }
     }
